@@ -612,15 +612,18 @@ class GMMMachine(BaseEstimator):
         if int(version_major) >= 1:
             if hdf5.attrs["writer_class"] != str(cls):
                 logger.warning(f"{hdf5.attrs['writer_class']} is not {cls}.")
-            if hdf5["trainer"] == "map" and ubm is None:
+            trainer = hdf5["trainer"][()]
+            if isinstance(trainer, bytes):
+                trainer = trainer.decode()
+            if trainer == "map" and ubm is None:
                 raise ValueError(
                     "The UBM is needed when loading a MAP machine."
                 )
             self = cls(
                 n_gaussians=hdf5["n_gaussians"][()],
-                trainer=hdf5["trainer"][()],
+                trainer=trainer,
                 ubm=ubm,
-                convergence_threshold=1e-5,
+                convergence_threshold=hdf5["convergence_threshold"][()],
                 max_fitting_steps=hdf5["max_fitting_steps"][()],
                 weights=hdf5["weights"][...],
                 k_means_trainer=None,
